@@ -5,7 +5,7 @@
     Sni/HelloGen.v). *)
 From Coq Require Import List NArith Bool.
 From Verif Require Import Lib.Bytes Sni.Wire Sni.Hello Sni.HelloProofs Sni.Handover
-  Sni.HandoverProofs Sni.HelloResult Sni.HelloResultProofs Sni.HelloGen Gen.HelloConsts.
+  Sni.HandoverProofs Sni.HelloResult Sni.HelloResultProofs Sni.HelloDeadline Sni.HelloGen Gen.HelloConsts.
 Import ListNotations.
 Local Open Scope N_scope.
 
@@ -163,6 +163,27 @@ Theorem C14_pooled_result_refuted : forall a b : hinfo,
   held_after OPooled [a; b] = Some [b; b] /\ held_after OPackageLevel [a; b] = Some [b; b].
 Proof. exact pooled_result_overwritten. Qed.
 Print Assumptions C14_pooled_result_refuted.
+
+(** The connection's read deadline is part of what sniffing must leave alone:
+    with the deadline calls emitted from tls_hello_conn.go (none), after any
+    sniff - hello in one read or split over several - a Read of the proxied
+    stream at ANY later instant gets the bytes the connection has. *)
+Theorem C14_sniff_leaves_no_deadline : forall t0 split t avail,
+  read_at (deadline_after (dl_of gen_hello_deadline_calls) t0 split) t avail = RdBytes avail.
+Proof.
+  exact (fun t0 split t avail =>
+           no_deadline_reads_always gen_hello_deadline_calls t0 split t avail gen_hello_no_deadline_calls).
+Qed.
+Print Assumptions C14_sniff_leaves_no_deadline.
+
+(** A deadline set for the rest of a split hello and never cleared (seeded
+    change C14-j): refuted - the Read d later times out; with the hello in one
+    read nothing happens, which is why one-segment tests do not see it. *)
+Theorem C14_sniff_leaves_no_deadline_refuted : forall d avail,
+  read_at (deadline_after (DlSetAndLeave d) 0 true) d avail = RdTimeout /\
+  read_at (deadline_after (DlSetAndLeave d) 0 false) d avail = RdBytes avail.
+Proof. exact deadline_left_armed_times_out. Qed.
+Print Assumptions C14_sniff_leaves_no_deadline_refuted.
 
 (** Never a wrong name: what is reported is empty, or it is what the parse
     of the complete first record yields. *)
